@@ -131,28 +131,7 @@ def step (line : String) : String :=
     else fmtResult (partRead n (bigFile v bb nc seed.toNat! ps))
   | _ => "bad-op"
 
-def timing : IO UInt32 := do
-  let t0 ← IO.monoMsNow
-  let bs := bigFile 2 6 1000003 7 [0, 5, 999999, 1000000, 1000001, 1000002]
-  IO.println s!"len {bs.length}"
-  let t1 ← IO.monoMsNow
-  IO.println s!"gen {t1 - t0} ms"
-  match parseWith Cfg.current 2 chunkConst bs with
-  | .error e => IO.println e.name
-  | .ok p =>
-    IO.println s!"groups {(p.groups.map (fun g => g.map List.length))}"
-    let t2 ← IO.monoMsNow
-    IO.println s!"parse {t2 - t1} ms"
-    match distribute 2 p with
-    | .error e => IO.println e.name
-    | .ok w =>
-      IO.println s!"{w.map fun st => st.cells.map List.length}"
-      let t3 ← IO.monoMsNow
-      IO.println s!"distribute {t3 - t2} ms"
-  return 0
-
-def run (args : List String) : IO UInt32 := do
-  if args == ["time"] then return (← timing)
+def run (_args : List String) : IO UInt32 := do
   runLoop () fun _ line => ((), step line)
   return 0
 
